@@ -336,6 +336,11 @@ def main(pid, tier, seed):
                                   'clause %s; %s' % (v[2], core.short(m, 260)))
         ins = {'files_of_Loader_model_space_loaded': len(itraces), 'Loader_model_checking': lmc, 'trace_validation': ist}
 
+    comp = None
+    if pid == 'C03':
+        from . import compose
+        comp = compose.stage(tier, random.Random(seed * 104729 + 5), verdict, pid)
+
     verdicts, st = core.validate_traces('TrTrain.tla', traces, chunk=200, timeout=900)
     for t in traces:
         v = verdicts[t['tid']]
@@ -365,9 +370,9 @@ def main(pid, tier, seed):
            'rule': 'C06: one trace = one saved list of one real training against the tallies captured from the trainer memory, the structure '
                    'list coverage clauses, or two trainings of the same input; C03: one trace = one real training + the real guesser run to '
                    'exhaustion with --skip_brute; non-trivial = list with more than one record',
-           'trainings': n_train, 'trainings_not_completed_with_tiny_alphabet_retried_with_default': n_alpha_retry, 'loader_insertion': ins, 'trace_validation': st, 'exhaustive': False, 'binding_selftest': selftest,
+           'trainings': n_train, 'trainings_not_completed_with_tiny_alphabet_retried_with_default': n_alpha_retry, 'loader_insertion': ins, 'composition': comp, 'trace_validation': st, 'exhaustive': False, 'binding_selftest': selftest,
            'known_findings_reproduced': n_known, 'violation_histogram': verdict.histogram()}
-    core.write_evidence(pid, tier, seed, 'model_checking' if pid == 'C06' else 'exploration', cov, time.time() - t0, violations=n_viol,
+    core.write_evidence(pid, tier, seed, 'model_checking', cov, time.time() - t0, violations=n_viol,
                         assumptions=['TLC', 'written probability converted to an integer count c = round(p*total) and p == c/total checked in binary64 '
                                      '(structure list: 1e-12 against the exact rational)', 'tallies captured from the trainer in-memory Counters',
                                      'C03 domain: letters with one-to-one case mapping; coverage 0 is outside C03 (C06: only the Markov structure)'])
